@@ -229,6 +229,13 @@ pub fn tree_inputs(max_nodes: usize) -> Vec<Vec<u8>> {
     for_each_tree(&names, &params, &mut |root| {
         out.push(crate::dom::Doc::from_root(root.clone()).to_xml().into_bytes());
     });
+    // names that differ only in their namespace prefix, as elements and as attributes of one element
+    // (`<a p:a="v" a="v"/>`: the same local name twice among the attributes, prefixed one first)
+    let prefixed: Vec<PoolName> = ["p:a", "a", "q:a"].iter().map(|n| PoolName { name: n, category: "c07", element: true }).collect();
+    let params = TreeParams { min_nodes: 0, max_nodes: 2, max_decorated: 2, root_from_subset: true, shard: (0, 1) };
+    for_each_tree(&prefixed, &params, &mut |root| {
+        out.push(crate::dom::Doc::from_root(root.clone()).to_xml().into_bytes());
+    });
     // forests: up to four top-level elements (the library accepts them), names from {a, b, n}, each
     // empty, with a child or with an attribute; with and without leading character data
     let shapes = ["<N/>", "<N><c/></N>", "<N k=\"v\"></N>"];
